@@ -43,3 +43,21 @@ pub fn vx_entry_or_default<'a, K: std::cmp::Eq + std::hash::Hash, V: Default>(m:
         !old(m)@.contains_key(k) ==> vx_is_default(*r),
         final(m)@ == old(m)@.insert(k, *final(r)),
 { m.entry(k).or_default() }
+// Rewrite R24 targets: `if let Entry::Occupied(mut e) = m.entry(k)` holds exactly when k is present (std: "An occupied
+// entry"); OccupiedEntry::get_mut / get ("Gets a (mutable) reference to the value in the entry") and remove ("Takes the
+// value out of the entry, and returns it") written against the map itself.
+#[verifier::external_body]
+pub fn vx_occupied_get_mut<'a, K: std::cmp::Eq + std::hash::Hash, V>(m: &'a mut std::collections::HashMap<K, V>, k: &K) -> (r: &'a mut V)
+    requires old(m)@.contains_key(*k),
+    ensures *r == old(m)@[*k], final(m)@ == old(m)@.insert(*k, *final(r)),
+{ m.get_mut(k).unwrap() }
+#[verifier::external_body]
+pub fn vx_occupied_get<'a, K: std::cmp::Eq + std::hash::Hash, V>(m: &'a std::collections::HashMap<K, V>, k: &K) -> (r: &'a V)
+    requires m@.contains_key(*k),
+    ensures *r == m@[*k],
+{ m.get(k).unwrap() }
+#[verifier::external_body]
+pub fn vx_occupied_remove<K: std::cmp::Eq + std::hash::Hash, V>(m: &mut std::collections::HashMap<K, V>, k: &K) -> (r: V)
+    requires old(m)@.contains_key(*k),
+    ensures r == old(m)@[*k], final(m)@ == old(m)@.remove(*k),
+{ m.remove(k).unwrap() }
